@@ -134,15 +134,32 @@ pub enum SimOutcome<T> {
 
 /// Run `f` as one simulated process: a fresh OS thread whose `RandomState` keys come from
 /// `hash_seed` and (if `clock` is given) whose monotonic clock is simulated.
+/// Stack of a simulated process that runs harness-side work (reference, grammar construction).
+pub const HARNESS_STACK: usize = 256 << 20;
+/// Stack of a simulated process that runs the code under test on user input: the size a Linux
+/// main thread gets by default. (Rust's own default for spawned threads is 2 MB.) Recursion
+/// proportional to the input is a resource the environment bounds; exhausting it kills the
+/// process, which the worker isolation reports as "the parse does not return".
+pub const SUBJECT_STACK: usize = 8 << 20;
+
 pub fn sim_process<'s, T: Send + 's>(
     hash_seed: u64,
     clock: Option<&ClockPolicy>,
     f: impl FnOnce() -> T + Send + 's,
 ) -> (SimOutcome<T>, SimStats) {
+    sim_process_with_stack(hash_seed, clock, HARNESS_STACK, f)
+}
+
+pub fn sim_process_with_stack<'s, T: Send + 's>(
+    hash_seed: u64,
+    clock: Option<&ClockPolicy>,
+    stack: usize,
+    f: impl FnOnce() -> T + Send + 's,
+) -> (SimOutcome<T>, SimStats) {
     let clock = clock.cloned();
     std::thread::scope(|sc| {
         let h = std::thread::Builder::new()
-            .stack_size(256 << 20)
+            .stack_size(std::env::var("VERIF_SIM_STACK_MB").ok().and_then(|s| s.parse::<usize>().ok()).map(|m| m << 20).unwrap_or(stack))
             .spawn_scoped(sc, move || {
                 SIM_ENTROPY.with(|s| s.set(Some(hash_seed)));
                 if let Some(c) = &clock {
